@@ -3,7 +3,7 @@ for adjacency (c = 1), borders (c = f^2) and distances (c = f), for all n_b >= 1
 The triple filter-append loop is summarised by the engine (pyvc/summaries.py: flatten + filter + fill); the dense view of
 the resulting triplet list uses a lookup ghost whose correctness (pairwise distinct positions) is an obligation."""
 import z3
-from pyvc.core import Num, Bool, Vec, Mat, Str, Obj, Tup, NONE, zint, conc
+from pyvc.core import Num, Bool, Vec, Mat, Str, Obj, Tup, NONE, zint, conc, Unsupported
 from pyvc.ops import vget, to_num, as_real, lift
 from pyvc.verify import Contract
 from pyvc.interp import Stub
@@ -89,7 +89,7 @@ class GetNN(Contract):
             summ = [s_ for s_ in ctx.__dict__.get("summaries", []) if "row" in s_["lists"]]
             fi = summ[-1]["filter"] if summ else None
             if fi is None or getattr(fi, "filter_of", None) is None:
-                V.oblige("post:triplet-loop-was-summarised", False)
+                raise Unsupported("the triplet loop was not summarised: the contract's ghost handles do not exist for this code")
                 return
             _len, _cond, fidx, finv = fi.filter_of
             L = zint(data.length)
